@@ -133,11 +133,13 @@ META = {
              "argument parser, and which options an override applies - decided by the driver (schemas depth <= 3, all command lines incl. the empty one, ignore lists, 28k cases).",
              "argparse is external; enumeration builds nested tuples outside the encoding", "contracts discharged by z3/cvc5 + bounded run-time contract checking"),
     "C17": M("other",
-             "Proved for all states and arguments (50 obligations): ListProxy.append, insert, index assignment, extend, +=, +, copy and construction (from nothing, a list or a "
+             "Proved for all states and arguments (87 obligations): ListProxy.append, insert, index assignment, extend, +=, +, copy and construction (from nothing, a list or a "
              "tuple) and DictProxy item assignment and setdefault behave like the built-in over the normalised items - length, order, untouched prefix, position of the new items, "
              "return values, typed fresh copies, exactly when the items of another proxy are taken over as they are; the generator expressions that feed the built-in list are "
-             "verified as the loops they are (inductive invariants). Bounded, not proved: arbitrary iterables (iterators, generators, views, the receiver itself), slice "
-             "assignment, *, pop/remove/delete/sort/reverse/clear (inherited built-ins), DictProxy.update / |= / copy / construction and all queries - decided by the differential "
+             "verified as the loops they are (inductive invariants). DictProxy construction / update / |= from a dict and copy: every old key is kept, every new or changed entry "
+             "satisfies key and value field, a rejected update leaves the dict as it was, a proxy of the same configuration and field is copied as it is, copies are typed and fresh "
+             "(WHICH normalised entry ends up under a key - last one wins - is not stated: bounded). Bounded, not proved: arbitrary iterables (iterators, generators, views, pairs, "
+             "keyword arguments, the receiver itself), slice assignment, *, pop/remove/delete/sort/reverse/clear (inherited built-ins) and all queries - decided by the differential "
              "driver against the built-in list/dict (100k operation sequences per quick run: every operation of the statement, every iterable kind, return values, typed copies).",
              "built-in list/dict are the oracle of the bounded part; item_norm/entry_norm (what validation makes of a value) are defined by the validators' outcome",
              "contracts on the real proxy classes discharged by z3/cvc5 + bounded differential run-time contract checking"),
